@@ -9,6 +9,13 @@ hook_commits = [l.split()[0] for l in HOOK_COMMITS if "verif" in l.lower() and n
 
 # id -> (engine, technique, level text, level note, design ref)
 CHECKS = {
+    "C14": (
+        "E3",
+        "exhaustive sweep of all k-digit decimals over an exponent range, integer windows, all binary exponents x structured mantissas, x a grid of format settings through the real formatter; displayed text judged against exact decimal rounding",
+        "Every decimal with 6 (quick) / 7 (thorough) significant digits at every exponent -12..22 and both signs, 7/8-digit decimals at the notation switch points, +-2000 windows around 10^k and 2^p, every f64 binary exponent with structured mantissas, and a grid of (separator, grouping threshold, significant digits) settings: each is formatted by the real pretty-printer; after removing the separator the text must be a documented numeric literal whose value is the input rounded to the digits shown (exact or shortest-digits rounding), integers below 2^53 must show all digits, non-finite values the keywords.",
+        "Trusted: Rust's correctly-rounded float formatting/parsing as reference arithmetic; mantissas beyond 7-8 digits are covered only through the structured bit patterns.",
+        "§4 C14",
+    ),
     "C13": (
         "E3",
         "complete enumeration of the finite identifier space (every alias x 34 prefixes x long/short spellings) against declarations scanned from the .nbt sources and an independent prefix table; plus whole-space long-session passes",
